@@ -21,6 +21,7 @@ SPARSE_Q = [
     {"variant": "hosted", "grain": 8, "gtes": 4, "K": 2, "full": True, "sel": 3},
     {"variant": "footer", "grain": 8, "gtes": 4, "K": 2, "full": True, "sel": 4},
     {"variant": "stream", "grain": 8, "gtes": 4, "K": 2, "full": True, "lba": True, "sel": 4},
+    {"variant": "stream", "grain": 2, "gtes": 2, "K": 1, "full": True, "lba": True, "tight": True, "sel": 4},  # packed at sector granularity
     {"variant": "hosted", "grain": 128, "gtes": 512, "K": 256, "full": False, "max_len": 1 << 20, "sel": 8},
     {"variant": "footer", "grain": 128, "gtes": 512, "K": 16640, "full": False, "max_len": 1 << 20, "sel": 40},  # 130 GD entries, > 4 GiB
     {"variant": "stream", "grain": 128, "gtes": 512, "K": 256, "full": False, "lba": False, "max_len": 1 << 20, "sel": 16},
@@ -84,7 +85,7 @@ def build(img, prof, cap_bytes=None):
         compressed = v == "stream"
         vf, info = enc_vmdk.build_hosted(ents, present, capacity=capacity, grain=grain, gtes=gtes, footer=(v != "hosted"),
                                          compressed=compressed, lba=prof.get("lba", True), slot_mult=prof.get("slot_mult", 1),
-                                         level=prof.get("level", 6), max_pos=(P + 1) * K)
+                                         level=prof.get("level", 6), max_pos=(P + 1) * K, tight=prof.get("tight", False))
         if compressed:
             def tokb(tok, a, n, cell=cell, gbytes=gbytes):  # noqa: E306
                 if tok["k"] != "D":
@@ -133,6 +134,50 @@ def check_flat(ctx, rng, n):
                                   cap=30, sectors_api=_sectors)
 
 
+def check_compressed_boundary(ctx, rng, thorough):
+    """Stream-optimised grains whose on-disk record (header + deflate data) has every size around the 512-byte sector
+    boundary: the reader must fetch the continuation sectors exactly when the record crosses the first sector."""
+    import zlib
+
+    from dissect.hypervisor.disk.vmdk import VMDK
+
+    grain = 8
+    gbytes = grain * 512
+    for lba in (True, False):
+        hdr = 12 if lba else 4
+        targets = list(range(500, 526)) if thorough else list(range(504, 520))
+        # find, per target record size, a noise length that produces it
+        found = {}
+        for noise in range(300, 620):
+            ln = len(zlib.compress(patterns.npat(1, noise, 0, gbytes), 6)) + hdr
+            if ln in targets and ln not in found:
+                found[ln] = noise
+        for total, nz in sorted(found.items()):
+            ents = [("D", 1), ("D", 2), ("Z", 0), ("D", 3)]
+            noise = {1: nz, 2: 0, 3: nz}
+            # grain 3 reuses the noise length of grain 1 (a different compressed size is fine)
+            vf, info = enc_vmdk.build_hosted(ents, [True], capacity=4 * grain, grain=grain, gtes=4, footer=True, compressed=True,
+                                             lba=lba, tight=rng.random() < 0.5, noise=noise, max_pos=5)
+            exp = patterns.npat(1, nz, 0, gbytes) + patterns.npat(2, 0, 0, gbytes) + bytes(gbytes) + patterns.npat(3, nz, 0, gbytes)
+            ctx.case(key=("cboundary", lba, total), nontrivial=True,
+                     sample={"variant": "stream", "record_bytes": total, "embedded_lba": lba} if total == 512 else None)
+            try:
+                vf.seek(0)
+                v = VMDK(vf)
+                got = v.read(4 * gbytes)
+                vf.seek(0)
+                v2 = VMDK(vf)
+                v2.seek(gbytes // 2)
+                got2 = v2.read(gbytes)
+            except Exception as e:  # noqa: BLE001
+                ctx.violation({"format": "vmdk", "variant": "stream", "fail": "read-raised", "exc": type(e).__name__, "sub": "compressed-boundary"},
+                              {"record_bytes": total, "embedded_lba": lba, "error": repr(e)[:300]})
+                continue
+            if got != exp or got2 != exp[gbytes // 2: gbytes // 2 + gbytes]:
+                ctx.violation({"format": "vmdk", "variant": "stream", "fail": "read-mismatch", "sub": "compressed-boundary"},
+                              {"record_bytes": total, "embedded_lba": lba, "diff": disk.first_diff(exp, got)})
+
+
 def make_trace(tid, rng, nops=25, **opt):
     v = rng.choice(["hosted", "hosted", "footer", "stream", "cowd", "se"])
     if v == "cowd":
@@ -173,7 +218,7 @@ def make_trace(tid, rng, nops=25, **opt):
     ngd = -(-capacity // (gtes * grain))
     if v in ("hosted", "footer", "stream"):
         vf, info = enc_vmdk.build_hosted(ents, present, capacity=capacity, grain=grain, gtes=gtes, footer=(v != "hosted"),
-                                         compressed=(v == "stream"), lba=rng.random() < 0.5, max_pos=npos + 1)
+                                         compressed=(v == "stream"), lba=rng.random() < 0.5, max_pos=npos + 1, tight=rng.random() < 0.6)
     elif v == "cowd":
         vf, info = enc_vmdk.build_cowd(ents, present, capacity=capacity, grain=grain, max_pos=npos + 1)
     else:
@@ -210,6 +255,7 @@ def run(ctx):
     profs = (SPARSE_T + COWD_T + SE_T) if thorough else (SPARSE_Q + COWD_Q + SE_Q)
     diskprop.replay_states(ctx, "vmdk", sts, profs, build, attrs_of=_attrs, cap=56 if thorough else 32, sectors_api=_sectors)
     check_flat(ctx, rng, 12 if thorough else 4)
+    check_compressed_boundary(ctx, rng, thorough)
     diskprop.traces(ctx, "vmdk", lambda tid, r: make_trace(tid, r, 40 if thorough else 25, many=("mid" if tid % 8 == 0 else None)), 320 if thorough else 64,
                     "TraceDisk", "TraceDisk.cfg", lambda t: {"format": "vmdk", "variant": t["variant"]})
 
